@@ -26,7 +26,7 @@
    adds a depth to the base number, the model has no width parameter; the pinned tree's
    width-dependent comparator is kept as [validate_commit_prefix w] (C19_width_prefix_refuted). *)
 From Coq Require Import List NArith ZArith Bool Permutation.
-From C19 Require Import Model ProofsVoterSet ProofsChain ProofsCommit ProofsIff ProofsJust ProofsOrder ProofsNoAmb ProofsMain.
+From C19 Require Import Model ProofsVoterSet ProofsChain ProofsCommit ProofsIff ProofsJust ProofsOrder ProofsNoAmb ProofsMain ProofsShift.
 Import ListNotations.
 Local Open Scope N_scope.
 
@@ -250,3 +250,29 @@ Proof.
   - reflexivity.
   - reflexivity.
 Qed.
+
+(* ======================= second round (audit) =======================
+   "The verdict does not depend on the integer width of block numbers": the repaired code only
+   compares block numbers with each other and adds a depth to the base number, so the verdict is
+   invariant under adding ANY constant k to every block number of the justification (precommits,
+   ancestry headers, commit target, finalized target).  A justification whose numbers need 64 bits
+   therefore has the verdict of the same justification moved below 2^32 and vice versa.  No
+   hypothesis on the inputs (arbitrary voter set, headers, precommits, also inconsistent ones).
+   (The pinned tree's comparator is NOT shift invariant at width 32: C19_width_prefix_refuted.) *)
+Theorem C19_number_shift_free : forall k vs hs fhash fnum thash tnum ps,
+  validate_commit vs (map (sh_hdr k) hs) thash (tnum + k) (map (sh_pc k) ps)
+    = validate_commit vs hs thash tnum ps
+  /\ verify_finalizes vs (map (sh_hdr k) hs) fhash (fnum + k) thash (tnum + k) (map (sh_pc k) ps)
+     = verify_finalizes vs hs fhash fnum thash tnum ps.
+Proof.
+  intros k vs hs fhash fnum thash tnum ps. split.
+  - exact (validate_commit_sh k vs hs thash tnum ps).
+  - exact (verify_finalizes_sh k vs hs fhash fnum thash tnum ps).
+Qed.
+Print Assumptions C19_number_shift_free.
+
+(* non-vacuity: the accepted witness moved by 2^32 is accepted *)
+Example C19_shift_nonvacuous :
+  let k := 4294967296 in
+  verify_finalizes w_vs (map (sh_hdr k) [mkHdr 2 1 7]) 1 (6 + k) 1 (6 + k) (map (sh_pc k) w_pcs) = JOk.
+Proof. vm_compute. reflexivity. Qed.
